@@ -2,6 +2,8 @@
 """Confirm a seeded change produced by an independent sub-agent and record it under /verif/seeded/<id>/.
 
   tools/seed.py <ID> <property> <worktree> <patch.diff> <demo.py> --needs "<what it needs to manifest>"
+  tools/seed.py --rerun <ID> [--skip-suite]     re-confirm and re-check a recorded change in a fresh scratch worktree
+  tools/seed.py --rerun-all [--skip-suite]
 
 Steps: (1) in the scratch worktree: demo passes on the clean tree; apply the patch; full test suite passes; demo fails;
 revert; (2) apply the patch to /repo, run every property check (no evidence written), undo it straight afterwards;
@@ -19,12 +21,42 @@ def sh(cmd, cwd=None, env=None, timeout=1800):
     return r.returncode, (r.stdout + r.stderr)
 
 
+SCRATCH = '/tmp/fggs-seed-wt'
+
+
+def scratch_worktree() -> str:
+    if not os.path.isdir(SCRATCH):
+        sh(f"git -C /repo worktree add -f --detach {SCRATCH} HEAD")
+    else:
+        sh('git checkout -q --detach ' + subprocess.run('git -C /repo rev-parse HEAD', shell=True, capture_output=True, text=True).stdout.strip(), cwd=SCRATCH)
+        sh('git checkout -- .', cwd=SCRATCH)
+    return SCRATCH
+
+
 def main():
+    if len(sys.argv) > 1 and sys.argv[1] in ('--rerun', '--rerun-all'):
+        ids = sorted(d for d in os.listdir(os.path.join(VERIF, 'seeded')) if os.path.exists(os.path.join(VERIF, 'seeded', d, 'meta.json'))) if sys.argv[1] == '--rerun-all' else [sys.argv[2]]
+        rc = 0
+        for i in ids:
+            d = os.path.join(VERIF, 'seeded', i)
+            m = json.load(open(os.path.join(d, 'meta.json')))
+            wt = scratch_worktree()
+            shutil.copy(os.path.join(d, 'demo.py'), os.path.join(wt, '_demo.py'))
+            shutil.copy(os.path.join(d, 'patch.diff'), os.path.join(wt, '_patch.diff'))
+            argv = [i, m['breaks_property'], wt, os.path.join(wt, '_patch.diff'), os.path.join(wt, '_demo.py'), '--needs', m['needs_to_manifest']] + (['--skip-suite'] if '--skip-suite' in sys.argv else [])
+            print('==', i)
+            rc |= run(argv, keep=m)
+        sh(f"git -C /repo worktree remove --force {SCRATCH}")
+        return rc
+    return run(sys.argv[1:])
+
+
+def run(argv, keep=None):
     ap = argparse.ArgumentParser()
     ap.add_argument('id'); ap.add_argument('prop'); ap.add_argument('worktree'); ap.add_argument('patch'); ap.add_argument('demo')
     ap.add_argument('--needs', default='')
     ap.add_argument('--skip-suite', action='store_true')
-    a = ap.parse_args()
+    a = ap.parse_args(argv)
     wt = a.worktree
     env = {'PYTHONPATH': wt}
     log = {}
@@ -51,10 +83,9 @@ def main():
         print('patch does not apply to /repo:', out); return 2
     results = {}
     try:
-        for p in PROPS:
-            rc, out = sh(f"/venv/bin/python -m sa.check {p} --tier quick", cwd=VERIF, env={'SA_NO_EVIDENCE': '1'}, timeout=600)
-            lines = [l.strip() for l in out.splitlines() if l.strip().startswith('violation:') or l.startswith('ANALYSIS-ERROR')]
-            results[p] = {'exit': rc, 'reports': [l[:260] for l in lines[:6]]}
+        rc, out = sh("/venv/bin/python -m sa.checkall /repo", cwd=VERIF, timeout=900)
+        line = [l for l in out.splitlines() if l.startswith('{')]
+        results = json.loads(line[-1]) if line else {p: {'exit': 2, 'reports': ['checkall produced no output: ' + out[-300:]]} for p in PROPS}
     finally:
         sh('git -C /repo checkout -- .')
     st, _ = sh('git -C /repo status --short -- fggs bin')
@@ -62,8 +93,11 @@ def main():
     errors = [p for p, r in results.items() if r['exit'] == 2]
     d = os.path.join(VERIF, 'seeded', a.id)
     os.makedirs(d, exist_ok=True)
-    shutil.copy(a.patch, os.path.join(d, 'patch.diff'))
-    shutil.copy(a.demo, os.path.join(d, 'demo.py'))
+    if os.path.abspath(a.patch) != os.path.abspath(os.path.join(d, 'patch.diff')) and not os.path.basename(a.patch).startswith('_'):
+        shutil.copy(a.patch, os.path.join(d, 'patch.diff'))
+        shutil.copy(a.demo, os.path.join(d, 'demo.py'))
+    if a.skip_suite and keep and 'test_suite_with_change' in keep.get('confirmation', {}):
+        log['test_suite_with_change'] = keep['confirmation']['test_suite_with_change']
     meta = {'id': a.id, 'breaks_property': a.prop, 'needs_to_manifest': a.needs, 'source': 'independent sub-agent given only the property text and a scratch worktree',
             'confirmation': log, 'checks_run': 'every property check (quick) on /repo with patch.diff applied, then git -C /repo checkout -- .',
             'caught_by': caught, 'analysis_errors': errors, 'target_property_caught': a.prop in caught,
